@@ -3,7 +3,7 @@
 //   when they do not suffice); T slow-hash keys with buckets that keep no hash bits (every migration recomputes the hash)
 // case line:   <kind> <keycat F|S|T> <dist> <logStart> <S|M> | <op> <op> ... [| <annotation, ignored here>]
 //   op:  i<k>[a<n>|f<n>]  Insert key k (armed: the n-th memory-manager allocation / n-th hash call of this op throws)
-//        r<k> Remove(key)   q<k> Find   v<n>[a<n>|f<n>] Reserve(n)   t  traversal   c  GetCount
+//        r<k> Remove(key)   q<k> Find   v<n>[a<n>|f<n>] Reserve(n)   x<0|1> Clear(shrink)   t  traversal   c  GetCount
 // mode "sched" (argv[1]): print the observed static facts + failure schedule of every op (input of the Coq model),
 //   then "#" statistics, then "#" oracle verdict (std::set twin + kit protocol/leak summary).
 // default mode: one token per op  res/count/capacity/ngens/shape/find/trav  (digests; C11_VERBOSE=1 prints shapes)
@@ -11,6 +11,7 @@
 #include "momo/HashSet.h"
 #include "momo/HashMap.h"
 #include "momo/details/HashBucketOne.h"
+#include "momo/details/HashBucketLimP.h"
 #include "kit.h"
 using namespace momo;
 typedef unsigned long long ull;
@@ -31,6 +32,9 @@ struct Traits
 	template<typename KA> size_t GetHashCode(const KA& k) const { W().step_func(); return kit::spread(dist, uint64_t(kit::value_of(k))); }
 	template<typename A, typename B> bool IsEqual(const A& a, const B& b) const { return kit::value_of(a) == kit::value_of(b); }
 };
+// LimP derives WasFull from the memory-pool index; with skipOddMemPools the pool of maxCount items is reached one item early
+template<class Bk, class = void> struct WfOdd { static const int v = 0; };
+template<class Bk> struct WfOdd<Bk, std::void_t<decltype(Bk::skipOddMemPools)>> { static const int v = Bk::skipOddMemPools ? 1 : 0; };
 struct SetSett : HashSetSettings { static const CheckMode checkMode = CheckMode::exception; };
 struct MapSett : HashMapSettings { static const CheckMode checkMode = CheckMode::exception; };
 
@@ -49,7 +53,20 @@ template<typename Key, typename Tr> struct SetAd
 	static bool insert(Cont& c, int64_t k) { return c.Insert(MkKey<Key>::make(k)).inserted; }
 	static bool find(Cont& c, int64_t k) { Key key = MkKey<Key>::make(k); return !!c.Find(key); }
 	static bool remove(Cont& c, int64_t k) { Key key = MkKey<Key>::make(k); return c.Remove(key); }
-	static void traverse(Cont& c, std::vector<int64_t>& out, bool& bad) { for (const Key& x : c) out.push_back(kit::value_of(x)); (void)bad; }
+	// checked traversal: the iterator is advanced at most count+1 times and is dereferenced only if it points to an item
+	// that the container really holds (addresses collected through private access), so a broken iterator yields a
+	// wrong/marked sequence (compared with the model) instead of a wild read
+	static void traverse(Cont& c, std::vector<int64_t>& out, bool& bad, const std::set<const void*>& valid)
+	{
+		size_t n = 0; auto it = c.GetBegin();
+		for (; it != c.GetEnd() && n <= c.GetCount(); ++it, ++n)
+		{
+			const Key* p = std::addressof(*it);
+			if (!valid.count(p)) { bad = true; out.push_back(-7); return; }
+			out.push_back(kit::value_of(*p));
+		}
+		if (it != c.GetEnd()) { bad = true; out.push_back(-8); }
+	}
 };
 template<typename Key, typename Tr> struct MapAd
 {
@@ -59,11 +76,22 @@ template<typename Key, typename Tr> struct MapAd
 	static bool insert(Cont& c, int64_t k) { return c.Insert(MkKey<Key>::make(k), k * 3 + 1).inserted; }
 	static bool find(Cont& c, int64_t k) { Key key = MkKey<Key>::make(k); auto p = c.Find(key); return !!p && p->value == k * 3 + 1; }
 	static bool remove(Cont& c, int64_t k) { Key key = MkKey<Key>::make(k); return c.Remove(key); }
-	static void traverse(Cont& c, std::vector<int64_t>& out, bool& bad)
-	{ for (auto ref : c) { int64_t k = kit::value_of(ref.key); out.push_back(k); if (ref.value != k * 3 + 1) bad = true; } }
+	static void traverse(Cont& c, std::vector<int64_t>& out, bool& bad, const std::set<const void*>& valid)
+	{
+		size_t n = 0; auto it = c.GetBegin();
+		for (; it != c.GetEnd() && n <= c.GetCount(); ++it, ++n)
+		{
+			auto ref = *it;
+			const Key* p = std::addressof(ref.key);
+			if (!valid.count(p)) { bad = true; out.push_back(-7); return; }
+			int64_t k = kit::value_of(*p); out.push_back(k);
+			if (ref.value != k * 3 + 1) bad = true;
+		}
+		if (it != c.GetEnd()) { bad = true; out.push_back(-8); }
+	}
 };
 
-struct Obs { ull ngens, shape, headItems; void* head; std::string text; };
+struct Obs { ull ngens, shape, headItems; void* head; std::string text; std::set<const void*> addrs; };
 
 template<typename Ad> static Obs observe(typename Ad::Cont& c, bool verbose)
 {
@@ -84,6 +112,7 @@ template<typename Ad> static Obs observe(typename Ad::Cont& c, bool verbose)
 			for (auto it = bounds.GetBegin(); it != bounds.GetEnd(); ++it)
 			{
 				int64_t k = kit::value_of(HS::ItemTraits::GetKey(*it));
+				o.addrs.insert(std::addressof(HS::ItemTraits::GetKey(*it)));
 				dg(o.shape, ull(k)); ++n;
 				if (verbose) o.text += std::to_string(k) + ",";
 			}
@@ -109,7 +138,8 @@ template<typename Ad, typename Tr> static void run_case(int dist, size_t logStar
 		if (sched)
 		{
 			typename HS::Bucket fresh;
-			outp += std::to_string(HS::Bucket::maxCount) + " " + (fresh.WasFull() ? "1" : "0") + " " + (HS::areItemsNothrowRelocatable ? "1" : "0");
+			outp += std::to_string(HS::Bucket::maxCount) + " " + (fresh.WasFull() ? "1" : "0") + " " + (HS::areItemsNothrowRelocatable ? "1" : "0")
+				+ " " + std::to_string(WfOdd<typename HS::Bucket>::v);
 		}
 		for (const std::string& op : ops)
 		{
@@ -141,7 +171,7 @@ template<typename Ad, typename Tr> static void run_case(int dist, size_t logStar
 				catch (const kit::InjectedFunc&) { res = "E"; }
 				catch (const std::bad_alloc&) { res = "B"; }
 				catch (const std::invalid_argument&) { res = "K"; }
-				catch (const std::runtime_error& e) { res = (std::string(e.what()) == "Hash table is full") ? "U" : "X"; }
+				catch (const std::runtime_error& e) { res = (std::string(e.what()) == "Hash table is full") ? "U" : "Z"; }
 				bool firedA = armA >= 0 && W().fail_alloc == -1, firedF = armF >= 0 && W().fail_func == -1;
 				W().disarm();
 				Obs after = observe<Ad>(c, false);
@@ -175,7 +205,7 @@ template<typename Ad, typename Tr> static void run_case(int dist, size_t logStar
 				}
 				if (af) ++afails;
 				if (res == "U") ++fullc;
-				if (res == "K" || res == "X")
+				if (res == "K" || res == "Z")
 				{	// the harness never passes invalid arguments: a failed MOMO_CHECK is a defect (before commit 7a001ad: MOMO_CHECK(newCapacity > mCount) after an overloading fallback insertion)
 					++chk; oracle.push_back("op " + op + " failed a MOMO_CHECK / threw an unexpected exception (" + res + ") although its arguments are valid");
 				}
@@ -196,6 +226,7 @@ template<typename Ad, typename Tr> static void run_case(int dist, size_t logStar
 			{
 				bool f = Ad::find(c, arg); res = f ? "F1" : "F0";
 			}
+			else if (kind == 'x') { c.Clear(arg != 0); twin.clear(); res = "X"; }
 			else if (kind == 't') res = "T";
 			else if (kind == 'c') res = "C";
 			else res = "?";
@@ -211,7 +242,7 @@ template<typename Ad, typename Tr> static void run_case(int dist, size_t logStar
 				if (f != (twin.count(k) != 0)) oracle.push_back("after " + op + ": Find(" + std::to_string(k) + ")=" + std::to_string(f) + " but twin=" + std::to_string(twin.count(k)));
 			}
 			ull td = 0; std::vector<int64_t> tr; bool badv = false;
-			Ad::traverse(c, tr, badv);
+			Ad::traverse(c, tr, badv, o.addrs);
 			for (int64_t k : tr) dg(td, ull(k));
 			std::vector<int64_t> srt(tr); std::sort(srt.begin(), srt.end());
 			if (badv || srt.size() != twin.size() || !std::equal(srt.begin(), srt.end(), twin.begin()))
@@ -236,7 +267,7 @@ template<typename Ad, typename Tr> static void run_case(int dist, size_t logStar
 			}
 			bool single = hs.mBuckets == nullptr || hs.mBuckets->GetNextBuckets() == nullptr;
 			if (!single && extra >= 100000) oracle.push_back("migration not completed by 100000 failure-free insertions");
-			std::vector<int64_t> tr; bool badv = false; Ad::traverse(c, tr, badv); std::sort(tr.begin(), tr.end());
+			std::vector<int64_t> tr; bool badv = false; Obs fin = observe<Ad>(c, false); Ad::traverse(c, tr, badv, fin.addrs); std::sort(tr.begin(), tr.end());
 			if (badv || tr.size() != twin.size() || !std::equal(tr.begin(), tr.end(), twin.begin())) oracle.push_back("contents differ from twin after completing the migration");
 			outp += " # g2=" + std::to_string(g2) + " g3=" + std::to_string(g3) + " maxg=" + std::to_string(maxg) + " fb=" + std::to_string(fb) + " refused=" + std::to_string(refused)
 				+ " full=" + std::to_string(fullc) + " migfail=" + std::to_string(migfail) + " afail=" + std::to_string(afails) + " extra=" + std::to_string(extra) + " single=" + std::to_string(single) + " chk=" + std::to_string(chk);
@@ -285,6 +316,10 @@ int main(int argc, char** argv)
 		else if (kind == "O2") ok = run_kind<HashBucketOpen2N2<2>>(keycat, sm, dist, ls, ops, sched);
 		else if (kind == "O3") ok = run_kind<HashBucketOpen2N2<3>>(keycat, sm, dist, ls, ops, sched);
 		else if (kind == "O8") ok = run_kind<HashBucketOpen8>(keycat, sm, dist, ls, ops, sched);
+#elif C11_TU == 3
+		if (kind == "P2") ok = run_kind<HashBucketLimP<2, MP1>>(keycat, sm, dist, ls, ops, sched);
+		else if (kind == "P3") ok = run_kind<HashBucketLimP<3, MP1>>(keycat, sm, dist, ls, ops, sched);
+		else if (kind == "P8") ok = run_kind<HashBucketLimP<8, MP1>>(keycat, sm, dist, ls, ops, sched);
 #else
 		if (kind == "N1") ok = run_kind<HashBucketOne<>>(keycat, sm, dist, ls, ops, sched);
 #endif
